@@ -1,0 +1,55 @@
+//go:build verif
+
+package kgo
+
+// Verification contracts (comments only), read by /verif/govc. Compiled only with -tags verif; no code.
+
+// ---- C21: the version a request is sent with is the largest one allowed by every bound ----
+// $<name><k> names the result of the k-th call of <name> in broker.handleReq (encoding order); $assert<k>_0/_1 are
+// the value and ok flag of the k-th type assertion; reached($x) says that call lies on the current path.
+
+//@ func (r kmsg.Request) Key() (k int16)
+//@   pure
+//@ func (r kmsg.Request) MaxVersion() (v int16)
+//@   pure
+//@ func (r kmsg.Request) GetVersion() (v int16)
+//@   pure
+//@ func (r kmsg.Request) SetVersion(v int16)
+//@   modifies object(r)
+//@ func (c context.Context) Value(key any) (v any)
+//@   pure
+//@ extern func (vs *kversion.Versions) LookupMaxKeyVersion(k int16) (v int16, ok bool)
+//@   pure
+//@ extern func (vs *kversion.Versions) HasKey(k int16) (ok bool)
+//@   pure
+
+//@ func (v *brokerVersions) maxVersion(key int16) (r int16)
+//@   prop C21
+//@   nopanic
+//@   pure
+//@   ensures r == ite(in(v.maxVers, key), v.maxVers[key], -1)
+
+//@ func (v *brokerVersions) minVersion(key int16) (r int16)
+//@   prop C21
+//@   nopanic
+//@   pure
+//@   ensures r == ite(in(v.minVers, key), v.minVers[key], -1)
+
+// The clamp. At the single SetVersion call (arg0 = the version written):
+//  * it does not exceed the client's own max, the broker's max (when known), the pinned max, the user's max;
+//  * it is one of those values (so it is the LARGEST version satisfying them);
+//  * it is not below the broker's min (when known), the pinned min, the user's min (otherwise the request fails
+//    before being written: the error paths return before this call).
+//@ func (b *broker) handleReq(pr promisedReq)
+//@   prop C21
+//@   site call SetVersion#0 assert [not-above-client-max] arg0 <= $MaxVersion0
+//@   site call SetVersion#0 assert [not-above-broker-max] $maxVersion2 >= 0 ==> arg0 <= $maxVersion2
+//@   site call SetVersion#0 assert [not-above-pinned-max] ($assert1_1 && $assert1_0.pinMax) ==> arg0 <= $assert1_0.max
+//@   site call SetVersion#0 assert [not-above-user-max] reached($LookupMaxKeyVersion0_0) ==> arg0 <= $LookupMaxKeyVersion0_0
+//@   site call SetVersion#0 assert [tight] arg0 == $MaxVersion0 || ($maxVersion2 >= 0 && arg0 == $maxVersion2)
+//@        || ($assert1_1 && $assert1_0.pinMax && arg0 == $assert1_0.max) || (reached($LookupMaxKeyVersion0_0) && arg0 == $LookupMaxKeyVersion0_0)
+//@   site call SetVersion#0 assert [not-below-broker-min] $minVersion0 >= 0 ==> arg0 >= $minVersion0
+//@   site call SetVersion#0 assert [not-below-pinned-min] ($assert1_1 && $assert1_0.pinMin && $assert1_0.min >= 0) ==> arg0 >= $assert1_0.min
+//@   site call SetVersion#0 assert [not-below-user-min] reached($LookupMaxKeyVersion1_0) ==> arg0 >= $LookupMaxKeyVersion1_0
+//   No request is written without having gone through the clamp on the same path.
+//@   site call writeRequest#0 assert [clamped-before-write] reached($SetVersion0)
